@@ -36,6 +36,9 @@ def check(model: Model, rep: Report, tier: str):
     s2(model, rep)
     s3(model, rep)
     s4(model, rep)
+    from .c05 import _k1_k2
+    share_rule(rep, model, _k1_k2, "C08.S5", "exporting before or after nesting / unrolling gives the same instructions: every operation class's copy() keeps "
+               "all its fields, in particular the record offsets of detector / observable annotations (= C05.K1/K2)")
 
 
 def _ctor_name(v: Term) -> Optional[str]:
